@@ -135,3 +135,57 @@ def single_return(f: Py) -> B:
 
 def the_return(f: Py) -> Py:
     return head(interesting(f.body))
+
+
+# ---- parameter lists ----------------------------------------------------------------------------
+def is_argn(x: Py) -> B:
+    """A well-formed `arg` node (a parameter: its name is a string)."""
+    return isinstance(x, ast.arg) and wf(x)
+
+
+def lem_argl(l: L) -> B:
+    """The grammar's `arg*` lists hold well-formed arg nodes."""
+    return implies(wf_arglist(l), all_list(is_argn, l))
+
+
+def lem_all_argn_cat(a: L, b: L) -> B:
+    return implies(all_list(is_argn, a) and all_list(is_argn, b), all_list(is_argn, concat(a, b)))
+
+
+def all_str(l: L) -> B:
+    if is_empty(l):
+        return True
+    return isinstance(head(l), str) and all_str(tail(l))
+
+
+def lem_all_str_snoc(l: L, x: Py) -> B:
+    return implies(all_str(l) and isinstance(x, str), all_str(concat(l, [x])))
+
+
+# ---- keyword lists --------------------------------------------------------------------------------
+def is_goodkw(k: Py) -> B:
+    """A well-formed keyword argument of query shape."""
+    return isinstance(k, ast.keyword) and wf(k) and qs(k)
+
+
+def lem_kwl_in(l: L) -> B:
+    """What well-formedness and query shape of a call say about its keyword list, element-wise."""
+    return implies(wf_kwlist(l) and all_list(qs, l), all_list(is_goodkw, l))
+
+
+def lem_kwl_out(l: L) -> B:
+    return implies(all_list(is_goodkw, l), wf_kwlist(l) and all_list(qs, l))
+
+
+def lem_goodkw_snoc(l: L, x: Py) -> B:
+    return implies(all_list(is_goodkw, l) and is_goodkw(x), all_list(is_goodkw, concat(l, [x])))
+
+
+def lem_all_str_in(l: L, x: Py) -> B:
+    return implies(all_str(l) and list_contains(l, x), isinstance(x, str))
+
+
+def is_nodes(l: L) -> B:
+    if is_empty(l):
+        return True
+    return is_node(head(l)) and wf(head(l)) and is_nodes(tail(l))
